@@ -34,3 +34,23 @@ M("subform-dhat-theta", "subspacemin.py", "    dHat = -invThet * (rHat + invThet
 M("subform-dhat-sign", "subspacemin.py", "    dHat = -invThet * (rHat + invThet * np.transpose(WTZ).dot(v))\n", "    dHat = -invThet * (rHat - invThet * np.transpose(WTZ).dot(v))\n", ["SUBFORM"])
 M("subform-wmc-dropped", "subspacemin.py", "        r -= mats.W.dot(bmv(mats.invMfactors, c))\n", "        r -= mats.W.dot(c)\n", ["SUBFORM"])
 Q("subform-expanded", "subspacemin.py", "    r = grad + mats.theta * (xc - x)\n", "    r = grad + mats.theta * xc - mats.theta * x\n", ["SUBFORM"])
+
+# ---- KFACT
+M("kfact-l22-without-l12", "subspacemin.py",
+  "    L22 = sp.linalg.cholesky(K22 + L12.T @ L12, lower=True)\n", "    L22 = sp.linalg.cholesky(K22, lower=True)\n", ["KFACT"], canary=True)
+M("kfact-upper-chol", "subspacemin.py",
+  "    L11 = sp.linalg.cholesky(K11, lower=True, overwrite_a=False)\n", "    L11 = sp.linalg.cholesky(K11, lower=False, overwrite_a=False)\n", ["KFACT"])
+M("kfact-k12-sign", "subspacemin.py", "    K12 = -K[:m, m:]\n", "    K12 = K[:m, m:]\n", ["KFACT"])
+M("kfact-blocks-swapped", "subspacemin.py",
+  "    LK = np.hstack([np.vstack([L11, L12.T]), np.vstack([np.zeros(L12.shape), L22])])\n",
+  "    LK = np.hstack([np.vstack([L11, np.zeros(L12.shape).T]), np.vstack([L12, L22])])\n", ["KFACT"])
+M("kfact-closed-form-2x2", "subspacemin.py",
+  "    # Extract the subblocks of K with K12 = K21.T (K is symmetric)\n",
+  "    if K.shape[0] == 2:\n        l11 = np.sqrt(-K[0, 0])\n        l12 = -K[0, 1] / l11\n        return np.array([[l11, 0.0], [l12, np.hypot(K[1, 1], l12)]])\n", ["KFACT"],
+  note="round-2 seeded change R2_C09-c")
+Q("kfact-floor-div", "subspacemin.py", "    m = int(K.shape[0] / 2)\n    K11", "    m = K.shape[0] // 2\n    K11", ["KFACT"])
+Q("kfact-np-block", "subspacemin.py",
+  "    LK = np.hstack([np.vstack([L11, L12.T]), np.vstack([np.zeros(L12.shape), L22])])\n",
+  "    LK = np.block([[L11, np.zeros(L12.shape)], [L12.T, L22]])\n", ["KFACT"])
+Q("kfact-inline-blocks", "subspacemin.py",
+  "    L11 = sp.linalg.cholesky(K11, lower=True, overwrite_a=False)\n", "    L11 = sp.linalg.cholesky(-K[:m, :m], lower=True)\n", ["KFACT"])
